@@ -135,6 +135,14 @@ SHAPES = {
                        _alg(3, inputs=[(1, None)])],
     'regress-leaf': [_alg(0), _alg(1, inputs=[(0, None)]), _alg(2, 'regress', [(1, None)])],
 }
+# algorithms of one task whose names are prefixes of one another (look-ups by name must be exact)
+SHAPES['prefix-names'] = [
+    dict(task='q', name='root', kind='task', values=['v0'], inputs=[], feedback=[]),
+    dict(task='q', name='fit', kind='task', values=['v0'], inputs=[(0, None)], feedback=[]),
+    dict(task='q', name='fitter', kind='task', values=['v0'], inputs=[(0, None)], feedback=[]),
+    dict(task='x', name='use', kind='task', values=['v0'], inputs=[(2, None)], feedback=[]),
+    dict(task='x', name='user', kind='task', values=['v0'], inputs=[(1, None)], feedback=[]),
+]
 # 'short-long-b' lists algorithms out of dependency order on purpose: fix the indices
 SHAPES['short-long-b'] = [
     dict(task='t0', name='a0', kind='task', values=['v0'], inputs=[], feedback=[]),
@@ -161,6 +169,10 @@ def scenarios(algs):
                                                   ('pump', 'success', None)]))
         out.append((f'ancestor-executing', [('org', r_, None, [1]), ('disp',), ('org', x, None, [1]), ('disp',),
                                             ('org', r_, None, [1]), ('disp',), ('pump', 'success-new', None)]))
+        # x executes target 1, then its ancestor executes target 1, then x is released for target 2
+        out.append((f'descendant-other-target-while-ancestor-executes',
+                    [('org', x, None, [1]), ('disp',), ('org', r_, None, [1]), ('disp',), ('org', x, None, [2]),
+                     ('disp',), ('pump', 'success', None)]))
     for i in range(n):
         out.append(('node-fails', [('orgall', None, 'all'), ('pump', 'success-new', i)]))
         out.append(('node-invalid-rerun', [('orgall', 3, 'all'), ('pump', 'success-new', i),
@@ -174,6 +186,31 @@ def scenarios(algs):
                     [('org', c, None, [1]), ('disp',), ('org', p_, None, [1, 2]), ('disp',),
                      ('replyu', p_, 2, 'success-new'), ('replyu', p_, 1, 'failure'), ('disp',),
                      ('replyu', c, 2, 'success'), ('replyu', c, 1, 'success-new'), ('pump', 'success', None)]))
+    for i in range(n):
+        if algs[i]['kind'] != 'analysis':
+            # the same algorithm is requested for another target while its first target executes
+            out.append(('rerequest-other-target-while-executing',
+                        [('org', i, None, [1]), ('disp',), ('org', i, None, [2]), ('disp',), ('disp',),
+                         ('pump', 'success', None)]))
+            # a unit is requested again while it executes, then its first execution reports new values
+            out.append(('rerequest-while-executing-then-new-values',
+                        [('org', i, None, [1]), ('disp',), ('org', i, None, [1]), ('replyu', i, 1, 'success-new'),
+                         ('disp',), ('pump', 'success', None)]))
+    tasks_ = [i for i in range(n) if algs[i]['kind'] == 'task']
+    chains = [(p_, x, y) for (p_, x) in edges for (x2, y) in edges if x2 == x][:4]
+    for p_, x, y in chains:
+        # x executes; its parent is re-run; x is requested again; the parent fails; then the grandchild is asked for
+        out.append(('child-rerequested-parent-fails-grandchild',
+                    [('org', x, None, [1]), ('disp',), ('org', p_, None, [1]), ('disp',), ('org', x, None, [1]),
+                     ('replyu', p_, 1, 'failure'), ('org', y, None, [1]), ('disp',), ('replyu', x, 1, 'success'),
+                     ('pump', 'success', None)]))
+    # an upstream algorithm executes target 1 while ANOTHER algorithm is busy with target 2
+    trip = [(a_, x, b) for x in tasks_ for a_ in sorted(up[x]) if a_ in tasks_
+            for b in tasks_ if b not in (a_, x) and x not in up[b] and b not in up[a_] and a_ not in up[b]][:6]
+    for a_, x, b in trip:
+        out.append(('two-busy-algorithms-different-targets',
+                    [('org', b, None, [2]), ('org', a_, None, [1]), ('disp',), ('org', x, None, [1]), ('disp',),
+                     ('pump', 'success', None)]))
     if not any(a.get('feedback') for a in algs):
         roots_ = [i for i in range(n) if not algs[i]['inputs'] and algs[i]['kind'] != 'analysis']
         if roots_:
@@ -214,12 +251,14 @@ class Run:
         self.no_model = False   # a database fault was injected: monitors on, correspondence off
         self.put = set()        # units for which farm._put queued a task message since their release
         self.fault_tick = False
+        self.tick_puts = []     # task messages farm._put queued during the current dispatch tick
         self.waiter_threads = []
         F = env.F
         orig_put = F._put.__wrapped__ if hasattr(F._put, '__wrapped__') else F._put
 
         def rec_put(job, runid, target, where):
             self.put.add((job.tag, target if target else ALL))
+            self.tick_puts.append((job.tag, target if target else ALL))
             return orig_put(job=job, runid=runid, target=target, where=where)
 
         rec_put.__wrapped__ = orig_put
@@ -288,6 +327,8 @@ class Run:
         before = env.snapshot()
         active = env.fsm.active and not env.S.is_paused()
         self.fault_tick = bool(getattr(env, 'fail_next_db', False))
+        self.tick_puts = []
+        self.put_before = set(self.put)
         released = env.dispatch()
         self.trace.append(['disp'])
         self.model_ops.append(['disp'])
@@ -319,6 +360,25 @@ class Run:
                     self.hit('C03', 'double-release', f'{unit[0]}[{unit[1]}] released again while still executing')
         if len(set(released)) != len(released):
             self.hit('C03', 'double-release', f'unit released twice in one batch: {released}')
+        # ---- the real release point is farm._put: a task message for a unit that was NOT released in this tick
+        # (it is still executing, or was never pending) is a second hand-over and a release of its own
+        carried = set(released) | {u for u in self.inflight if u not in self.put_before}
+        for unit in self.tick_puts:
+            if unit in carried:
+                continue
+            tag, t = unit
+            self.hit('C03', 'message-for-unreleased-unit',
+                     f'farm._put queued a task message for {tag}[{t}] which was not released by this tick'
+                     + (' and is still executing' if unit in self.inflight else ''))
+            for a in self.up[self.idx[tag]]:
+                atag = self.env.tags[a]
+                b = self.busy(before, atag)
+                if t in b or ALL in b or (t == ALL and b):
+                    self.hit('C01', 'release-with-busy-upstream',
+                             f'a task message for {tag}[{t}] was handed to the farm while upstream {atag} has '
+                             f'{sorted(b)} pending/executing')
+        if len(set(self.tick_puts)) != len(self.tick_puts):
+            self.hit('C03', 'double-release', f'two task messages for one unit in one tick: {sorted(self.tick_puts)}')
         # ---- C04: a pending unit whose upstream is idle (and which is not itself executing) is released
         if active:
             for tag in env.tags:
@@ -430,6 +490,9 @@ class Run:
                 if not want <= have:
                     self.hit('C02', 'dependent-not-scheduled',
                              f'{tag}[{t}] reported {sorted(declared & newset)} new but consumer {ktag} was not scheduled for {sorted(want - have)}')
+                    self.hit('C03', 'report-not-propagated',
+                             f'the result of {tag}[{t}] was recorded but its new-value report {sorted(declared & newset)} '
+                             f'did not reach consumer {ktag} (not scheduled for {sorted(want - have)})')
                 elif want and ktag not in after['que']:
                     self.hit('C02', 'dependent-not-scheduled', f'consumer {ktag} has pending work but is not in the queue')
             elif grew and k not in fb_consumers:
